@@ -362,3 +362,26 @@ PROPS["C07"] = dict(
     level_note="A 'keys' member that is not an array is unconstrained (the statement does not cover it). Byte-level inputs are not coverage-guided.",
     design_ref="DESIGN.md section 7, C07",
 )
+
+
+PROPS["C08"] = dict(
+    level="model_checking", exhaustive=False,
+    stages=lambda tier, seed: [
+        mc("matrix", "MC_C08", "MC_C08_%s.cfg" % tier),
+        mc("fresh", "MC_C08", "MC_C08_%s.cfg" % tier, expand=G.c08_fresh(1 if tier == "quick" else 12, every=9 if tier == "quick" else 1)),
+    ],
+    rule="from MC_C08: every fixture key (RSA 512..4096 incl. odd sizes, P-256/384/521, secp256k1, Ed25519, Ed448; "
+         "oct 1..512 bytes) x private and public form x metadata (alg matching / none / unknown / foreign, kid, use "
+         "sig/enc/other, key_ops subsets incl. unknown names) with the default encoding, and x integer encoding "
+         "(fixed width, minimal, zero-padded by 1 and 3 bytes) x extra-member set (none, members of other key types, "
+         "unknown members) with plain metadata; as a single JWK and inside a JWKS. Stage 'fresh' repeats every 9th "
+         "(quick) / every (thorough, 12 times) cell with key material generated on the spot (OpenSSL keygen, fresh "
+         "oct bytes). The driver exports with its own exporter, parses the item's PEM with OpenSSL and compares "
+         "public and private components with the exported key. distinct = distinct scripts.",
+    assumptions=ASSUME_COMMON + ["equality of key components (big numbers, octets) is computed by the driver's projection against the key it exported; TLC judges the projected record"],
+    level_text="The structural matrix (type x size x form x metadata x encoding x extras) is enumerated by TLC and each "
+               "cell executed; every reported attribute must equal what the JWK states and the key material must "
+               "be identical in public and private components. Key material itself is sampled (fixtures + fresh keys).",
+    level_note="Empty and non-ASCII kid values are not enumerated (the statement is silent on whether an empty kid is a kid).",
+    design_ref="DESIGN.md section 7, C08",
+)
